@@ -749,7 +749,7 @@ bool Session::retrans_callback(const SequencePair& with, RetransmissionContext& 
 	{
 		if (rctx._last + 1 < with.first)
 		{
-			send(generate_sequence_reset(with.first, true), true, _next_send_seq);
+			send(generate_sequence_reset(with.first, true), true, rctx._last + 1);	// the gap starts after the last record sent
 			slout_debug << "retrans_callback scenario #2, " << rctx;
 		}
 	}
@@ -757,7 +757,7 @@ bool Session::retrans_callback(const SequencePair& with, RetransmissionContext& 
 	{
 		if (with.first > rctx._begin)
 		{
-			send(generate_sequence_reset(with.first, true));
+			send(generate_sequence_reset(with.first, true), true, rctx._begin);	// the gap starts at the first number requested
 			slout_debug << "retrans_callback scenario #3, " << rctx;
 		}
 	}
